@@ -489,6 +489,7 @@ def run(tier: str, only=None) -> core.Result:
     base, timing = configs_for(tier)
     out = explorer.explore(RUN, base, fidelity=True)
     sched.absorb(res, "virtual-matrix", RUN, out, base)
+    sched.debug_pass(res, "virtual-matrix", RUN, base, every=3)
     out = explorer.explore(RUN, timing, fidelity=True)
     sched.absorb(res, "virtual-grace-boundaries", RUN, out, timing)
     of = [{"error": e} for e in ("fnf", "perm", "os")]
